@@ -186,8 +186,8 @@ func relayerHistory(w *tracew.Writer, seed int64, run, depth int, period, timeou
 	var share [][2]int
 	if r0.Intn(2) == 0 {
 		for k := 1 + r0.Intn(2); k > 0; k-- {
-			b := nv + 1 + r0.Intn(7-nv)
-			a := r0.Intn(8)
+			b := nv + 1 + r0.Intn(6-nv) // member indexes are 0-based here; index 7 is the outsider
+			a := r0.Intn(nv + 1) // a founding member (proposer or voter), so that both holders of the key sit in the group together
 			if a != b {
 				share = append(share, [2]int{a, b})
 			}
@@ -239,6 +239,9 @@ func relayerHistory(w *tracew.Writer, seed int64, run, depth int, period, timeou
 			rr := &goattypes.RelayerRequests{}
 			for k := s.R.Intn(3); k > 0; k-- {
 				id := 1 + s.R.Intn(7)
+				if len(share) > 0 && s.R.Intn(2) == 0 {
+					id = share[s.R.Intn(len(share))][1] + 1 // the late joiner holding a founding member's vote key
+				}
 				m := s.member(id)
 				rr.Adds = append(rr.Adds, &goattypes.AddVoterRequest{Voter: m.EthAddr(), Pubkey: common.BytesToHash(m.BlsPKH)})
 				plan.Adds = append(plan.Adds, id)
